@@ -441,3 +441,7 @@ func (h *HexBytes) UnmarshalJSON(b []byte) error {
 	*h = out
 	return nil
 }
+
+// SaveReplay writes a replay file for a failure found outside Run (a native fuzz target); label must be the label of
+// the Run whose replay path re-executes the case.
+func SaveReplay(label string, c any, err error) { writeReplay(label, c, err) }
